@@ -54,9 +54,24 @@ func vhArbitraryStack(n, slack int, nils bool, optMask cfgFlag, capMode, capSpan
 		verifAssume(c <= n+1+capSpan)
 		cfg.cap = c
 	}
-	if vhPreMutex && nondetChoice(2) == 1 {
-		// locking enabled: every lock taken must be released again (vhInv)
-		cfg.mtx = &sync.Mutex{}
+	switch vhPreMode {
+	case 1:
+		if nondetChoice(2) == 1 {
+			// locking enabled: every lock taken must be released again (vhInv)
+			cfg.mtx = &sync.Mutex{}
+		}
+	case 2:
+		// ... and, third, a state some earlier calls left behind: an error on
+		// record and a validity policy that currently rejects the instance.
+		// Neither is any business of the content operations.
+		switch nondetChoice(3) {
+		case 1:
+			cfg.mtx = &sync.Mutex{}
+		case 2:
+			cfg.mtx = &sync.Mutex{}
+			cfg.err = errorf("left behind by an earlier call")
+			cfg.vpf = func(...any) error { return errorf("content not acceptable") }
+		}
 	}
 	st := make(stack, 1+n, 1+n+slack)
 	st[0] = cfg
@@ -104,8 +119,43 @@ func vhInv(s Stack, cfg *nodeConfig, id string) {
 	}
 }
 
-// vhPreMutex: symbolic pre-states come with and without a mutex.
-var vhPreMutex = true
+// vhPreMode: 0 plain pre-states; 1 with and without a mutex; 2 additionally
+// with an error on record and a rejecting validity policy.
+var vhPreMode = 1
+
+// vhAssertUnlocked: no mutex anywhere in the tree x is left locked.
+func vhAssertUnlocked(x any, id string) {
+	vhUnlockedWalk(x, id, 0)
+}
+
+func vhUnlockedWalk(x any, id string, depth int) {
+	if depth > 5 {
+		return
+	}
+	if s, ok := vhStackOf(x); ok {
+		if cfg, _ := s.config(); cfg != nil && cfg.mtx != nil {
+			free := cfg.mtx.TryLock()
+			verifAssert(free, id+"/mutex-released")
+			if free {
+				cfg.mtx.Unlock()
+			}
+		}
+		for i := 1; i < len(*s.stack); i++ {
+			vhUnlockedWalk((*s.stack)[i], id, depth+1)
+		}
+		return
+	}
+	if c, ok := vhCondOf(x); ok {
+		if cfg := c.condition.cfg; cfg != nil && cfg.mtx != nil {
+			free := cfg.mtx.TryLock()
+			verifAssert(free, id+"/mutex-released")
+			if free {
+				cfg.mtx.Unlock()
+			}
+		}
+		vhUnlockedWalk(c.condition.ex, id, depth+1)
+	}
+}
 
 // vhSame compares two element values by identity of the tokens used in
 // harnesses (strings, ints, nil).
